@@ -585,6 +585,11 @@ func RunMapInitExpr(ctx *Task, expr *ast.MapLiteral) (any, ast.DType, *errchain.
 // }
 
 func RunIndexExprGet(ctx *Task, expr *ast.IndexExpr) (any, ast.DType, *errchain.PlError) {
+	if expr.Obj == nil {
+		// `.[i]` is only meaningful as a path argument of a function
+		return nil, ast.Invalid, NewRunError(ctx, "index expression has no object",
+			ast.WrapIndexExpr(expr).StartPos())
+	}
 	key := expr.Obj.Name
 
 	varb, err := ctx.GetKey(key)
@@ -905,6 +910,10 @@ func RunAssignmentExpr(ctx *Task, expr *ast.AssignmentExpr) (any, ast.DType, *er
 				"unsupported op", expr.OpPos)
 		}
 	case ast.TypeIndexExpr:
+		if LHS.IndexExpr().Obj == nil {
+			return nil, ast.Invalid, NewRunError(ctx, "index expression has no object",
+				LHS.StartPos())
+		}
 		switch expr.Op {
 		case ast.EQ:
 			varb, err := ctx.GetKey(LHS.IndexExpr().Obj.Name)
